@@ -42,3 +42,8 @@ def D10(key, payload):
         return _has_colliding_names(_schema_of_key(key))
     except Exception:
         return False
+
+
+def D9(key, payload):
+    """the check tagged the case: some key of the value equals the Python name of a renamed property."""
+    return "D9-shape" in (payload.get("tags") or [])
